@@ -84,6 +84,18 @@ CHECKS = {
         text="95 methods x {entry, request/response class, params, registration options, default method, envelope annotations, constant, direction}; no extra keys; every protocol type object in ALL_TYPES_MAP under its own name and vice versa; all attrs fields resolved after first get_converter().",
         note="Class-name rule from the documentation (typeName else UpperCamel of method).",
         ref="3/C09"),
+    "C16": dict(
+        engine="HIST",
+        technique="explicit-state breadth-first exploration of generator run histories (runs, stale files, fresh directories) with set-order and uuid seams, on the real entry point; plus real CLI processes per hash seed",
+        text="Per plugin all histories up to length 3 (dotnet/testdata quick: 2) over {Run(model A|B x set order x uuid stream), StaleOwned, StaleForeign, Fresh}; after every Run the owned files are byte-identical to the reference run, foreign files untouched, no injected uuid in the output; CLI runs under several PYTHONHASHSEEDs.",
+        note="Assumes the generator reads only model files and its output/test directories; dotnet/testdata use small model slices in the quick tier.",
+        ref="3/C16"),
+    "C18": dict(
+        engine="HIST",
+        technique="exhaustive enumeration of single schema-valid additions (read-back), document lists up to length 3 (merge), single structural edits at every JSON node (equality) and single schema-violating edits per definition x rule x site x plugin (gate), all on the real loader and entry point",
+        text="(a) committed model + every (definition x optional property) addition and every kind of type expression read back losslessly; (b) all lists <=3 over 4 documents merged = concatenation; (c) every declaration x every single structural edit: equality verdicts, no raise; (d) every schema definition x rule kind x site class x 5 plugins: command fails, no plugin called, nothing written.",
+        note="Structural = everything except annotation fields; plugins observed through recording wrappers on their public generate entry point.",
+        ref="3/C18"),
 }
 
 PENDING_REASON = "check not built yet in this session (planned, see DESIGN.md section 3); not claimed until it exists"
@@ -139,6 +151,7 @@ ENGINES = [
     {"name": "MM", "path": "lspverif/mm.py", "serves_properties": [], "kind_free_text": "reference model of the LSP metamodel (oracle)"},
     {"name": "VSE", "path": "lspverif/vse.py", "serves_properties": ["C01", "C02", "C03", "C10", "C11", "C13", "C14", "C15"], "kind_free_text": "deviation-bounded exhaustive value-space explorer over the metamodel grammar"},
     {"name": "BISIM", "path": "lspverif/img_py.py", "serves_properties": ["C04", "C05", "C09"], "kind_free_text": "product-graph exploration metamodel x generated artefact, simulation checked in both directions"},
+    {"name": "HIST", "path": "lspverif/hist.py", "serves_properties": ["C16", "C18"], "kind_free_text": "exhaustive enumeration of event histories on the real generator entry points with nondeterminism seams"},
     {"name": "GRID", "path": "lspverif/props/c12.py", "serves_properties": ["C12", "C20"], "kind_free_text": "exhaustive boundary-grid enumeration on the real classes and validators"},
 ]
 
